@@ -170,6 +170,10 @@ where
                     // float vectors holding the per-length maximum are keyed separately (w * len is not representable)
                     let at_max = W::IS_FLOAT && ws.iter().any(|w| w.as_f() >= 0.999 * W::max_f() / n as f64);
                     viol(if at_max { "weights|per-length-maximum" } else { "weights" }, format!("weights() = {:?} does not reconstruct the input", rec));
+                    if at_max {
+                        // a recorded finding of weights() only: sampling of such vectors is still checked below
+                        break;
+                    }
                     return;
                 }
             }
